@@ -697,7 +697,7 @@ def run_startup(chk, rec, quick):
             combos.append((n, chk.rng.choice(["classic", "quorum"]), chk.rng.random() < 0.5,
                            chk.rng.sample(CLEAN_IDS, n), chk.rng.choice(QUEUE_NAMES)))
         lines, meta = [], []
-        for (n, qt, aio, ids, qn) in combos:
+        for ci, (n, qt, aio, ids, qn) in enumerate(combos):
             spy.seen = []
             s = make_sim(n, qt, aio, ids, qn)
             tr = "asyncio" if aio else "blocking"
@@ -730,7 +730,7 @@ def run_startup(chk, rec, quick):
                         if r["ch"] is e["session"].channel and op_json(r) is not None:
                             ops.append(op_json(r))
                     lines.append(model_open_line(e["role"], e["transport"], e["env"], e["address"]))
-                    meta.append((dict(case, instance=k, role=e["role"], address=e["address"]), ops, nm, desc))
+                    meta.append((dict(case, instance=k, role=e["role"], address=e["address"], combo=ci), ops, nm, desc))
             s.close()
         answers = common.driver(lines)
         # per address: the declarations; per configuration: the broker's entities rebuilt from the model's declarations
@@ -742,7 +742,7 @@ def run_startup(chk, rec, quick):
                 chk.report("impl-differs-from-spec", case, impl=ops, model=m, classify=classify,
                            law="address_declares: the engine's address strings declare exactly the model's entities")
                 continue
-            key = cj({k: case[k] for k in ("instances", "queue_type", "transport", "ids", "queue_name")})
+            key = case["combo"]          # one broker per configuration run (the same configuration may be drawn twice)
             ent = by_case.setdefault(key, {"case": case, "desc": desc, "queues": {}, "consumers": {}, "exchanges": {},
                                            "bindings": []})
             for o in m[1]["ops"]:
